@@ -70,3 +70,37 @@ Theorem C02_len_in_free_switch_disagrees :
   mout t_len_case c_str = Some ([], Some ECondHlpNotFound) /\ rout t_len_case c_str = (B "L"%string, SNone).
 Proof. exact F5_len_in_free_switch. Qed.
 Print Assumptions C02_len_in_free_switch_disagrees.
+
+(* ---- the if-ok block  {% if v, okv := vok(arg).(static); [!]okv %} ... {% else %} ... {% endif %} ---- *)
+Theorem C02_ifok_refines :
+  forall flits lookup budget inc rlookup rinc L v okv arg (arglit neg : bool) th el (he : bool),
+    items_ok flits lookup budget inc rlookup rinc false L th ->
+    items_ok flits lookup budget inc rlookup rinc false L el ->
+    (neg = true -> simple_name okv = true) ->
+    node_ref flits lookup budget inc rlookup rinc L
+      (NCondOK (mkOk v okv b_static)
+         (if neg then mkCond okv b_true false true OpNq Compile.n_vok [mkArg [] arg arglit false] LcNone
+          else mkCond okv [] false false OpUnk Compile.n_vok [mkArg [] arg arglit false] LcNone)
+         (NBlock BTrue no_case (merge_raws (c_list compile th)) ::
+          (if he then [NBlock BFalse no_case (merge_raws (c_list compile el))] else [])))
+      (AIfOK v okv arg arglit neg th el he).
+Proof. exact ifok_ref. Qed.
+Print Assumptions C02_ifok_refines.
+
+(* the node returns what the chosen branch returns *)
+Theorem C02_ifok_runs_one_branch :
+  forall flits lookup budget inc k (ci : condinfo) ch1 ch2 rest c w,
+    cHlp ci = Interp.n_vok -> oIns k = n_static ->
+    exists c3 (b : bool),
+      write_node flits lookup budget inc (NCondOK k ci (ch1 :: ch2 :: rest)) c w =
+      write_node flits lookup budget inc (if b then ch1 else ch2) c3 w.
+Proof. exact condok_runs_child. Qed.
+Print Assumptions C02_ifok_runs_one_branch.
+
+(* the side condition is needed: with the negated form, a flag variable that is not a plain name
+   is not found again by the extended condition *)
+Theorem C02_ifok_negated_flag_not_a_name_disagrees :
+  mout t_ifok_dotted c_ifok = Some (B "F"%string, None) /\ rout t_ifok_dotted c_ifok = (B "T"%string, SNone) /\
+  mout t_ifok_noname c_ifok = Some (B "F"%string, None) /\ rout t_ifok_noname c_ifok = (B "T"%string, SNone).
+Proof. exact F10_ifok_negated_flag_not_a_name. Qed.
+Print Assumptions C02_ifok_negated_flag_not_a_name_disagrees.
